@@ -670,6 +670,7 @@ func Generate(prop, tier string, seed uint64) []GenCase {
 		out = append(out, genCtlExpect("S-ctl-expect", seed+2)...)
 		out = append(out, genCtlKnown("S-ctl-known", seed+3)...)
 		out = append(out, genSizeLimit("S-ctl-size", NewRng(seed+4))...)
+		out = append(out, genHostStrings("S-ctl-hoststr")...)
 		out = append(out, genCtl("S-ctl", seed+1, 400*scale, []string{"code"})...)
 	case "C06":
 		out = genFn("S-fn", seed, 300*scale)
